@@ -265,3 +265,435 @@ Lemma gradOf_setGrad_other (h : heap) i g j : j <> i -> gradOf (setGrad h i g) j
 Proof. intros Hj. rewrite gradOf_setGrad. apply Nat.eqb_neq in Hj. rewrite Hj. reflexivity. Qed.
 
 End Helpers.
+
+(* the observers of the nine nodes of [fc_heap] *)
+Section FcObs.
+Context {A : Type} {SA : Scalar A}.
+Notation T := (tensor A).
+Notation heap := (@heap A).
+
+Lemma fc_heap_obs (h : heap) w b x tx (w1v x1v bwv bxv y1v y2v by2v bbv yv : T) name :
+  let h1 := fc_heap h w b x tx w1v x1v bwv bxv y1v y2v by2v bbv yv name in
+  let n := length h in
+  let n1 := S n in let n2 := S n1 in let n3 := S n2 in let n4 := S n3 in
+  let n5 := S n4 in let n6 := S n5 in let n7 := S n6 in let n8 := S n7 in
+  (edgesOf h1 n = [(w, RReshape n w)] /\ trackedOf h1 n = true) /\
+  (edgesOf h1 n1 = (if tx then [(x, RReshape n1 x)] else []) /\ trackedOf h1 n1 = tx) /\
+  (edgesOf h1 n2 = [(n, RBroadcast n2 n)] /\ trackedOf h1 n2 = true) /\
+  (edgesOf h1 n3 = (if tx then [(n1, RBroadcast n3 n1)] else []) /\ trackedOf h1 n3 = tx) /\
+  (edgesOf h1 n4 = [(n2, RMatMulA n4 n3); (n3, RMatMulB n4 n2)] /\ trackedOf h1 n4 = true) /\
+  (edgesOf h1 n5 = [(n4, RSumAlong n5 n4 2%Z)] /\ trackedOf h1 n5 = true) /\
+  (edgesOf h1 n6 = [(n5, RBroadcast n6 n5)] /\ trackedOf h1 n6 = true) /\
+  (edgesOf h1 n7 = [(b, RBroadcast n7 b)] /\ trackedOf h1 n7 = true) /\
+  (edgesOf h1 n8 = [(n6, RId n8); (n7, RId n8)] /\ trackedOf h1 n8 = true).
+Proof.
+  cbv zeta. unfold fc_heap. cbv zeta.
+  repeat split.
+  - at_rw edgesOf_at (length h) 0. reflexivity.
+  - at_rw trackedOf_at (length h) 0. reflexivity.
+  - at_rw edgesOf_at (S (length h)) 1. reflexivity.
+  - at_rw trackedOf_at (S (length h)) 1. reflexivity.
+  - at_rw edgesOf_at (S (S (length h))) 2. reflexivity.
+  - at_rw trackedOf_at (S (S (length h))) 2. reflexivity.
+  - at_rw edgesOf_at (S (S (S (length h)))) 3. reflexivity.
+  - at_rw trackedOf_at (S (S (S (length h)))) 3. reflexivity.
+  - at_rw edgesOf_at (S (S (S (S (length h))))) 4. reflexivity.
+  - at_rw trackedOf_at (S (S (S (S (length h))))) 4. reflexivity.
+  - at_rw edgesOf_at (S (S (S (S (S (length h)))))) 5. reflexivity.
+  - at_rw trackedOf_at (S (S (S (S (S (length h)))))) 5. reflexivity.
+  - at_rw edgesOf_at (S (S (S (S (S (S (length h))))))) 6. reflexivity.
+  - at_rw trackedOf_at (S (S (S (S (S (S (length h))))))) 6. reflexivity.
+  - at_rw edgesOf_at (S (S (S (S (S (S (S (length h)))))))) 7. reflexivity.
+  - at_rw trackedOf_at (S (S (S (S (S (S (S (length h)))))))) 7. reflexivity.
+  - at_rw edgesOf_at (S (S (S (S (S (S (S (S (length h))))))))) 8. reflexivity.
+  - at_rw trackedOf_at (S (S (S (S (S (S (S (S (length h))))))))) 8. reflexivity.
+Qed.
+End FcObs.
+
+(* ===================================================================================== *)
+(* 4. the FC layer in a graph                                                              *)
+(* ===================================================================================== *)
+Local Open Scope R_scope.
+Section FcMain.
+Variables (thr : R) (draw : bool -> nat -> R).
+Local Hint Extern 0 (Scalar R) => exact (R_scalar thr draw) : typeclass_instances.
+Notation T := (tensor R).
+Notation heap := (@heap R).
+Notation rule := (@rule R).
+Notation idseal := (fun (_ : option nat) (g : T) => g).
+Notation prior := GradActP.prior.
+Notation prior_ok := GradActP.prior_ok.
+
+(* [c] ranges over the nine nodes: none but p has an edge to the node at hand *)
+Ltac fc_sing E0 E1 E2 E3 E4 E5 E6 E7 E8 :=
+  let c := fresh "c" in let e := fresh "e" in let Hc := fresh "Hc" in let Hne := fresh "Hne" in
+  let He := fresh "He" in let X := fresh "X" in
+  intros c e Hc Hne He X; cbn [In] in Hc;
+  repeat (destruct Hc as [Hc|Hc];
+    [subst c;
+     first [rewrite E0 in He|rewrite E1 in He|rewrite E2 in He|rewrite E3 in He|rewrite E4 in He
+           |rewrite E5 in He|rewrite E6 in He|rewrite E7 in He|rewrite E8 in He];
+     try (match type of He with context [if ?t then _ else _] => destruct t end); cbn [In] in He;
+     repeat (destruct He as [He|He]; [subst e; cbn [fst] in X; first [nlia|congruence]|]); destruct He|]);
+  destruct Hc.
+
+(* the edge of p into the node at hand reads p's gradient and values of the layer only *)
+Ltac fc_loc :=
+  let e := fresh "e" in let He := fresh "He" in let Hf := fresh "Hf" in
+  intros e He Hf; cbn [In] in He;
+  repeat (destruct He as [He|He];
+    [subst e; cbn [fst snd] in Hf |- *;
+     first [ exfalso; nlia
+           | split; [reflexivity|]; let i := fresh "i" in let Hi := fresh "Hi" in
+             cbn [rule_vals]; intros i Hi; cbn [In] in Hi; repeat (destruct Hi as [Hi|Hi]; [subst i; nlia|]); destruct Hi ]|]);
+  destruct He.
+
+Theorem fc_backward_in_graph rd (h h1 H H' : heap) w b x name (wv bv xv : T) O B F y r log gy :
+  valOf h w = Some wv -> valOf h b = Some bv -> valOf h x = Some xv ->
+  wf wv -> wf bv -> wf xv -> dims wv = [O] -> dims bv = [O] -> dims xv = [B; F] ->
+  trackedOf h w = true -> dirtyOf h w = false -> trackedOf h b = true -> dirtyOf h b = false ->
+  dirtyOf h x = false -> w <> b ->
+  fc_forward h w b [Some x] name = (h1, Ok y) ->
+  let n := length h in
+  let ints := [n; S n; S (S n); S (S (S n)); S (S (S (S n))); S (S (S (S (S n)))); S (S (S (S (S (S n)))));
+               S (S (S (S (S (S (S n))))))] in
+  prefS h1 H -> rules_own H -> wf_heap H -> no_outside_edge H y ints ->
+  In y (topoOrder H r) ->
+  (forall c, In c ints -> gradOf H c = None) ->
+  prior_ok [O] (gradOf H w) -> prior_ok [O] (gradOf H b) -> prior_ok [B; F] (gradOf H x) ->
+  bp_topo rd idseal H r = (H', log, Ok tt) ->
+  gradOf H' y = Some gy -> wf gy -> dims gy = [B; O] ->
+  let out := outsideOf H r y ints in
+  (forall g, In g (contributions rd H' H out w) -> wf g /\ dims g = [O]) ->
+  (forall g, In g (contributions rd H' H out b) -> wf g /\ dims g = [O]) ->
+  (forall g, In g (contributions rd H' H out x) -> wf g /\ dims g = [B; F]) ->
+  y = S (S (S (S (S (S (S (S n))))))) /\
+  (exists gw, gradOf H' w = Some gw /\ dims gw = [O] /\ wf gw /\
+     forall o, (o < O)%nat ->
+       elt gw [o] = prior (gradOf H w) [o] + sumC (contributions rd H' H out w) [o] +
+                    rdc rd B * SumN B (fun bi => elt gy [bi; o] * SumN F (fun d => elt xv [bi; d]))) /\
+  (exists gb, gradOf H' b = Some gb /\ dims gb = [O] /\ wf gb /\
+     forall o, (o < O)%nat ->
+       elt gb [o] = prior (gradOf H b) [o] + sumC (contributions rd H' H out b) [o] +
+                    rdc rd B * SumN B (fun bi => elt gy [bi; o])) /\
+  (trackedOf h x = true ->
+   exists gx, gradOf H' x = Some gx /\ dims gx = [B; F] /\ wf gx /\
+     forall bi d, (bi < B)%nat -> (d < F)%nat ->
+       elt gx [bi; d] = prior (gradOf H x) [bi; d] + sumC (contributions rd H' H out x) [bi; d] +
+                        SumN O (fun o => elt gy [bi; o] * elt wv [o])).
+Proof.
+  intros Vw Vb Vx Ww Wb Wx Dw Db Dx Tw Dtw Tb Dtb Dtx Nwb E n ints P Hown Hwf NE Hin Hint0 Pw Pb Px Ebp Hgy Wgy Dgy out
+         Houtw Houtb Houtx.
+  destruct (fc_structure h w b x name wv bv xv h1 y Vw Vb Vx Tw Dtw Tb Dtb Dtx E)
+    as (w1v & x1v & bwv & bxv & y1v & y2v & by2v & bbv & yv & _ & _ & _ & _ & _ & _ & _ & _ & _ & Ey & Eh).
+  fold n in Ey. subst y. split; [reflexivity|].
+  remember (trackedOf h x) as tx eqn:Etx.
+  set (n1 := S n) in *. set (n2 := S n1) in *. set (n3 := S n2) in *. set (n4 := S n3) in *.
+  set (n5 := S n4) in *. set (n6 := S n5) in *. set (n7 := S n6) in *. set (n8 := S n7) in *.
+  subst ints.
+  assert (Hn1 : n1 = S n) by reflexivity. assert (Hn2 : n2 = S n1) by reflexivity. assert (Hn3 : n3 = S n2) by reflexivity.
+  assert (Hn4 : n4 = S n3) by reflexivity. assert (Hn5 : n5 = S n4) by reflexivity. assert (Hn6 : n6 = S n5) by reflexivity.
+  assert (Hn7 : n7 = S n6) by reflexivity. assert (Hn8 : n8 = S n7) by reflexivity.
+  assert (Lw : (w < n)%nat) by (eapply valOf_some_lt; eauto).
+  assert (Lb : (b < n)%nat) by (eapply valOf_some_lt; eauto).
+  assert (Lx : (x < n)%nat) by (eapply valOf_some_lt; eauto).
+  assert (Nwx : w <> x) by (intros X; subst x; assert (wv = xv) by congruence; subst xv; rewrite Dw in Dx; discriminate).
+  assert (Nbx : b <> x) by (intros X; subst x; assert (bv = xv) by congruence; subst xv; rewrite Db in Dx; discriminate).
+  assert (L1 : length h1 = S n8).
+  { rewrite Eh. unfold fc_heap. rewrite app_length. cbn [length]. unfold n8, n7, n6, n5, n4, n3, n2, n1, n. lia. }
+  (* the nine nodes, in h1 and in H *)
+  pose proof (fc_heap_obs h w b x tx w1v x1v bwv bxv y1v y2v by2v bbv yv name) as Ob. cbv zeta in Ob. rewrite <- Eh in Ob.
+  fold n n1 n2 n3 n4 n5 n6 n7 n8 in Ob.
+  destruct Ob as ((E0 & T0) & (E1 & T1) & (E2 & T2) & (E3 & T3) & (E4 & T4) & (E5 & T5) & (E6 & T6) & (E7 & T7) & (E8 & T8)).
+  assert (EHall : forall i, (i < S n8)%nat -> edgesOf H i = edgesOf h1 i).
+  { intros i Hi. symmetry. apply (proj2 P). rewrite L1. exact Hi. }
+  assert (THall : forall i, (i < S n8)%nat -> trackedOf H i = trackedOf h1 i).
+  { intros i Hi. symmetry. apply (proj2 P). rewrite L1. exact Hi. }
+  assert (Told : forall i, (i < n)%nat -> trackedOf h1 i = trackedOf h i).
+  { intros i Hi. rewrite Eh. unfold fc_heap. cbv zeta. apply trackedOf_app. exact Hi. }
+  (* the real run *)
+  assert (Hr : trackedOf H r = true) by (eapply in_topo_tracked; exact Hin).
+  destruct (bp_topo_correct rd H r H' log Hown Hwf Hr Ebp) as (rv & ones & _ & _ & _ & RS & _ & Racc & _ & _ & _).
+  destruct (topoOrder_facts H r Hwf Hr) as (Hnd & Htr & Hord & _ & _ & Hle & _). cbv zeta in Racc, Hnd, Htr, Hord, Hle.
+  set (order := topoOrder H r) in *.
+  assert (Hyr : (n8 <= r)%nat) by (apply Hle; exact Hin).
+  (* the auxiliary run: y holds gy, nothing else holds a gradient *)
+  set (hA := setGrad (setGrad (setGrad (setGrad h1 n8 (Some gy)) w None) b None) x None).
+  assert (SA : sameS h1 hA) by (repeat (eapply sameS_trans; [|apply sameS_setGrad]); apply sameS_refl).
+  assert (EAall : forall i, edgesOf hA i = edgesOf h1 i) by (intros i; symmetry; apply (sameS_edges _ _ SA)).
+  assert (TAall : forall i, trackedOf hA i = trackedOf h1 i) by (intros i; symmetry; apply (sameS_trk _ _ SA)).
+  assert (GAy : gradOf hA n8 = Some gy).
+  { unfold hA. rewrite !gradOf_setGrad_other by nlia. apply gradOf_setGrad_same. rewrite L1. nlia. }
+  assert (GAw : gradOf hA w = None).
+  { unfold hA. rewrite !gradOf_setGrad_other by (first [exact Nwx|exact Nwb]). apply gradOf_setGrad_same.
+    rewrite length_setGrad, L1. nlia. }
+  assert (GAb : gradOf hA b = None).
+  { unfold hA. rewrite gradOf_setGrad_other by exact Nbx. apply gradOf_setGrad_same. rewrite !length_setGrad, L1. nlia. }
+  assert (GAx : gradOf hA x = None).
+  { unfold hA. apply gradOf_setGrad_same. rewrite !length_setGrad, L1. nlia. }
+  assert (GAi : forall i, (n <= i < n8)%nat -> gradOf hA i = None).
+  { intros i Hi. unfold hA. rewrite !gradOf_setGrad_other by nlia. rewrite Eh. apply fc_heap_grad_new. fold n. nlia. }
+  destruct (fc_backward thr draw rd h w b x name wv bv xv O B F h1 n8 hA [] gy
+              Vw Vb Vx Ww Wb Wx Dw Db Dx Tw Dtw Tb Dtb Dtx Nwb E SA GAy Wgy Dgy)
+    as (_ & _ & hA' & logA & EfA & SAA & _ & (gwA & GwA & DwA & WwA & FwA) & (gbA & GbA & DbA & WbA & FbA) & HxA);
+    [exact GAi|rewrite GAw; apply okPrior_None|rewrite GAb; apply okPrior_None|rewrite GAx; apply okPrior_None|].
+  rewrite <- Etx in HxA. rewrite GAw in FwA. rewrite GAb in FbA.
+  set (lA := rev (seq (length h) 9)) in *.
+  assert (ElA : lA = [n8; n7; n6; n5; n4; n3; n2; n1; n]) by reflexivity.
+  assert (Dsc : desc lA).
+  { rewrite ElA. cbn [desc]. repeat (split; [intros c' Hc'; cbn [In] in Hc'; first [contradiction|nlia]|]). exact I. }
+  assert (NDA : NoDup lA) by (apply desc_NoDup; exact Dsc).
+  assert (HownA : rules_own hA) by (eapply rules_own_sameS; [exact SA|]; eapply rules_own_prefS; eauto).
+  assert (HwfA : wf_heap hA) by (eapply wf_heap_sameS; [exact SA|]; eapply wf_heap_prefS; eauto).
+  destruct (bp_fold_seg rd lA hA [] hA' logA HownA HwfA NDA (noback_desc hA HwfA lA Dsc) EfA) as (_ & AccA & _).
+  assert (Vag : forall i, (i < S n8)%nat -> valOf H' i = valOf hA' i).
+  { intros i Hi. rewrite (proj1 (RS i)). rewrite <- (proj1 (proj2 P i ltac:(rewrite L1; exact Hi))).
+    rewrite (sameS_val _ _ SA), (sameS_val _ _ SAA). reflexivity. }
+  assert (LAcomp : forall c, In c lA -> In c [n8; n; n1; n2; n3; n4; n5; n6; n7]).
+  { intros c Hc. rewrite ElA in Hc. cbn [In] in Hc |- *. tauto. }
+  assert (Lcomp : forall c, In c [n8; n; n1; n2; n3; n4; n5; n6; n7] -> (c < S n8)%nat).
+  { intros c Hc. cbn [In] in Hc. nlia. }
+  (* one step down the layer: p is the single consumer of the internal node nn *)
+  assert (Step : forall p nn es,
+     edgesOf h1 p = es -> (p < S n8)%nat -> In p order -> In p lA -> In nn [n; n1; n2; n3; n4; n5; n6; n7] -> trackedOf h1 nn = true ->
+     (exists e, In e es /\ fst e = nn) ->
+     (forall c e, In c [n8; n; n1; n2; n3; n4; n5; n6; n7] -> c <> p -> In e (edgesOf h1 c) -> fst e <> nn) ->
+     (forall e, In e es -> fst e = nn ->
+        rule_y (snd e) = p /\ forall i, In i (rule_vals (snd e)) -> (i < S n8)%nat) ->
+     gradOf H' p = gradOf hA' p ->
+     gradOf H' nn = gradOf hA' nn /\ In nn order).
+  { intros p nn es Ep Lp Po Pa Hnn Tnn (e0 & He0 & Hf0) Hsing Hloc Hgp.
+    assert (Lnn : (n <= nn < n8)%nat) by (cbn [In] in Hnn; nlia).
+    assert (Onn : In nn order).
+    { rewrite <- Hf0. apply (ordered_in H order Hord p e0 Po); [rewrite EHall by exact Lp; rewrite Ep; exact He0|].
+      rewrite Hf0, THall by nlia. exact Tnn. }
+    split; [|exact Onn].
+    pose proof (Racc nn Onn) as AccR. rewrite (Hint0 nn Hnn) in AccR.
+    assert (Xr : (nn =? r)%nat = false) by (apply Nat.eqb_neq; nlia). rewrite Xr in AccR. cbn [app] in AccR.
+    pose proof (AccA nn ltac:(rewrite TAall; exact Tnn)) as AccAn. rewrite (GAi nn Lnn) in AccAn.
+    apply (single_grad_eq rd H H' hA hA' order lA p nn es); try assumption.
+    - rewrite EHall by exact Lp. exact Ep.
+    - rewrite EAall. exact Ep.
+    - intros c e Hc Hne He X. assert (Hcc : In c [n8; n; n1; n2; n3; n4; n5; n6; n7]) by (apply (NE c e He); rewrite X; exact Hnn).
+      apply (Hsing c e Hcc Hne); [rewrite <- EHall by (apply Lcomp; exact Hcc); exact He|exact X].
+    - intros c e Hc Hne He X. apply (Hsing c e (LAcomp c Hc) Hne); [rewrite <- EAall; exact He|exact X].
+    - intros e He Hf. destruct (Hloc e He Hf) as [Hy Hv]. split; [exact Hy|]. intros i Hi. apply Vag. apply Hv. exact Hi. }
+  (* y: the auxiliary run leaves gy on y *)
+  assert (G8 : gradOf H' n8 = gradOf hA' n8).
+  { pose proof (AccA n8 ltac:(rewrite TAall; exact T8)) as A8. rewrite GAy in A8.
+    rewrite contributions_none in A8; [cbn [accAll] in A8; congruence|].
+    intros c e Hc He X. pose proof (wf_heap_edgesOf _ HwfA _ _ He). pose proof (Lcomp c (LAcomp c Hc)). nlia. }
+  assert (P8 : In n8 lA) by (rewrite ElA; in_solve). assert (P6 : In n6 lA) by (rewrite ElA; in_solve).
+  assert (P5 : In n5 lA) by (rewrite ElA; in_solve). assert (P4 : In n4 lA) by (rewrite ElA; in_solve).
+  assert (P3 : In n3 lA) by (rewrite ElA; in_solve). assert (P2 : In n2 lA) by (rewrite ElA; in_solve).
+  assert (P1 : In n1 lA) by (rewrite ElA; in_solve). assert (P0 : In n lA) by (rewrite ElA; in_solve).
+  assert (P7 : In n7 lA) by (rewrite ElA; in_solve).
+  destruct (Step n8 n6 _ E8 ltac:(nlia) Hin P8 ltac:(in_solve) T6) as [G6 O6];
+    [exists (n6, RId n8); split; [in_solve|reflexivity]|fc_sing E0 E1 E2 E3 E4 E5 E6 E7 E8|fc_loc|exact G8|].
+  destruct (Step n8 n7 _ E8 ltac:(nlia) Hin P8 ltac:(in_solve) T7) as [G7 O7];
+    [exists (n7, RId n8); split; [in_solve|reflexivity]|fc_sing E0 E1 E2 E3 E4 E5 E6 E7 E8|fc_loc|exact G8|].
+  destruct (Step n6 n5 _ E6 ltac:(nlia) O6 P6 ltac:(in_solve) T5) as [G5 O5];
+    [exists (n5, RBroadcast n6 n5); split; [in_solve|reflexivity]|fc_sing E0 E1 E2 E3 E4 E5 E6 E7 E8|fc_loc|exact G6|].
+  destruct (Step n5 n4 _ E5 ltac:(nlia) O5 P5 ltac:(in_solve) T4) as [G4 O4];
+    [exists (n4, RSumAlong n5 n4 2%Z); split; [in_solve|reflexivity]|fc_sing E0 E1 E2 E3 E4 E5 E6 E7 E8|fc_loc|exact G5|].
+  destruct (Step n4 n2 _ E4 ltac:(nlia) O4 P4 ltac:(in_solve) T2) as [G2 O2];
+    [exists (n2, RMatMulA n4 n3); split; [in_solve|reflexivity]|fc_sing E0 E1 E2 E3 E4 E5 E6 E7 E8|fc_loc|exact G4|].
+  destruct (Step n2 n _ E2 ltac:(nlia) O2 P2 ltac:(in_solve) T0) as [G0 O0];
+    [exists (n, RBroadcast n2 n); split; [in_solve|reflexivity]|fc_sing E0 E1 E2 E3 E4 E5 E6 E7 E8|fc_loc|exact G2|].
+  assert (TwH : trackedOf H w = true) by (rewrite THall by nlia; rewrite Told by exact Lw; exact Tw).
+  assert (Ow : In w order).
+  { apply (ordered_in H order Hord n (w, RReshape n w) O0); [rewrite EHall by nlia; rewrite E0; left; reflexivity|exact TwH]. }
+  pose proof (Racc w Ow) as Accw. assert (Xw : (w =? r)%nat = false) by (apply Nat.eqb_neq; nlia).
+  rewrite Xw in Accw. cbn [app] in Accw.
+  pose proof (AccA w ltac:(rewrite TAall, Told by exact Lw; exact Tw)) as AccwA. rewrite GAw, GwA in AccwA.
+  destruct (target_grad thr draw rd H H' hA hA' order lA [n8; n; n1; n2; n3; n4; n5; n6; n7] n w (RReshape n w) [O] gwA Hown Hnd O0 ltac:(in_solve))
+    as (gw & Hgw & Dgw & Wgw & Fw);
+    [intros c e Hc Hne He; rewrite EHall in He by (apply Lcomp; exact Hc); revert c e Hc Hne He; fc_sing E0 E1 E2 E3 E4 E5 E6 E7 E8
+    |exact P0|exact NDA
+    |intros c e Hc Hne He; rewrite EAall in He; apply LAcomp in Hc; revert c e Hc Hne He; fc_sing E0 E1 E2 E3 E4 E5 E6 E7 E8
+    |rewrite EHall by nlia; exact E0|rewrite EAall; exact E0|reflexivity
+    |intros i Hi; cbn [rule_vals In] in Hi; repeat (destruct Hi as [Hi|Hi]; [subst i; apply Vag; nlia|]); destruct Hi
+    |exact G0|exact Accw|exact AccwA|exact WwA|exact DwA|exact Pw|exact Houtw|].
+  assert (TbH : trackedOf H b = true) by (rewrite THall by nlia; rewrite Told by exact Lb; exact Tb).
+  assert (Ob : In b order).
+  { apply (ordered_in H order Hord n7 (b, RBroadcast n7 b) O7); [rewrite EHall by nlia; rewrite E7; left; reflexivity|exact TbH]. }
+  pose proof (Racc b Ob) as Accb. assert (Xb : (b =? r)%nat = false) by (apply Nat.eqb_neq; nlia).
+  rewrite Xb in Accb. cbn [app] in Accb.
+  pose proof (AccA b ltac:(rewrite TAall, Told by exact Lb; exact Tb)) as AccbA. rewrite GAb, GbA in AccbA.
+  destruct (target_grad thr draw rd H H' hA hA' order lA [n8; n; n1; n2; n3; n4; n5; n6; n7] n7 b (RBroadcast n7 b) [O] gbA Hown Hnd O7 ltac:(in_solve))
+    as (gb & Hgb & Dgb & Wgb & Fb);
+    [intros c e Hc Hne He; rewrite EHall in He by (apply Lcomp; exact Hc); revert c e Hc Hne He; fc_sing E0 E1 E2 E3 E4 E5 E6 E7 E8
+    |exact P7|exact NDA
+    |intros c e Hc Hne He; rewrite EAall in He; apply LAcomp in Hc; revert c e Hc Hne He; fc_sing E0 E1 E2 E3 E4 E5 E6 E7 E8
+    |rewrite EHall by nlia; exact E7|rewrite EAall; exact E7|reflexivity
+    |intros i Hi; cbn [rule_vals In] in Hi; repeat (destruct Hi as [Hi|Hi]; [subst i; apply Vag; nlia|]); destruct Hi
+    |exact G7|exact Accb|exact AccbA|exact WbA|exact DbA|exact Pb|exact Houtb|].
+  split; [|split].
+  - exists gw. split; [exact Hgw|]. split; [exact Dgw|]. split; [exact Wgw|]. intros o Ho.
+    rewrite (Fw [o]) by (repeat constructor; exact Ho). rewrite (FwA o Ho). cbn [GradFcP.prior].
+    change out with (filter (fun c => negb (memb c [n8; n; n1; n2; n3; n4; n5; n6; n7])) order). ring.
+  - exists gb. split; [exact Hgb|]. split; [exact Dgb|]. split; [exact Wgb|]. intros o Ho.
+    rewrite (Fb [o]) by (repeat constructor; exact Ho). rewrite (FbA o Ho). cbn [GradFcP.prior].
+    change out with (filter (fun c => negb (memb c [n8; n; n1; n2; n3; n4; n5; n6; n7])) order). ring.
+  - intros Htx. destruct tx; [|discriminate Htx]. clear Htx. cbn iota in E1, E3.
+    destruct HxA as (gxA & GxA & DxA & WxA & FxA). rewrite GAx in FxA.
+    destruct (Step n4 n3 _ E4 ltac:(nlia) O4 P4 ltac:(in_solve) T3) as [G3 O3];
+      [exists (n3, RMatMulB n4 n2); split; [in_solve|reflexivity]|fc_sing E0 E1 E2 E3 E4 E5 E6 E7 E8|fc_loc|exact G4|].
+    destruct (Step n3 n1 _ E3 ltac:(nlia) O3 P3 ltac:(in_solve) T1) as [G1 O1];
+      [exists (n1, RBroadcast n3 n1); split; [in_solve|reflexivity]|fc_sing E0 E1 E2 E3 E4 E5 E6 E7 E8|fc_loc|exact G3|].
+    assert (TxH : trackedOf H x = true) by (rewrite THall by nlia; rewrite Told by exact Lx; exact (eq_sym Etx)).
+    assert (Ox : In x order).
+    { apply (ordered_in H order Hord n1 (x, RReshape n1 x) O1); [rewrite EHall by nlia; rewrite E1; left; reflexivity|exact TxH]. }
+    pose proof (Racc x Ox) as Accx. assert (Xx : (x =? r)%nat = false) by (apply Nat.eqb_neq; nlia).
+    rewrite Xx in Accx. cbn [app] in Accx.
+    pose proof (AccA x ltac:(rewrite TAall, Told by exact Lx; exact (eq_sym Etx))) as AccxA. rewrite GAx, GxA in AccxA.
+    destruct (target_grad thr draw rd H H' hA hA' order lA [n8; n; n1; n2; n3; n4; n5; n6; n7] n1 x (RReshape n1 x) [B; F] gxA Hown Hnd O1 ltac:(in_solve))
+    as (gx & Hgx & Dgx & Wgx & Fx);
+    [intros c e Hc Hne He; rewrite EHall in He by (apply Lcomp; exact Hc); revert c e Hc Hne He; fc_sing E0 E1 E2 E3 E4 E5 E6 E7 E8
+    |exact P1|exact NDA
+    |intros c e Hc Hne He; rewrite EAall in He; apply LAcomp in Hc; revert c e Hc Hne He; fc_sing E0 E1 E2 E3 E4 E5 E6 E7 E8
+    |rewrite EHall by nlia; exact E1|rewrite EAall; exact E1|reflexivity
+    |intros i Hi; cbn [rule_vals In] in Hi; repeat (destruct Hi as [Hi|Hi]; [subst i; apply Vag; nlia|]); destruct Hi
+    |exact G1|exact Accx|exact AccxA|exact WxA|exact DxA|exact Px|exact Houtx|].
+    exists gx. split; [exact Hgx|]. split; [exact Dgx|]. split; [exact Wgx|]. intros bi d Hbi Hd.
+    rewrite (Fx [bi; d]) by (repeat constructor; assumption). rewrite (FxA bi d Hbi Hd). cbn [GradFcP.prior].
+    change out with (filter (fun c => negb (memb c [n8; n; n1; n2; n3; n4; n5; n6; n7])) order). ring.
+Qed.
+
+End FcMain.
+
+(* ===================================================================================== *)
+(* 5. examples                                                                             *)
+(* ===================================================================================== *)
+Module GradChainFcExamples.
+Section Ex.
+Variable draw : bool -> nat -> R.
+Local Hint Extern 0 (Scalar R) => exact (R_scalar 0 draw) : typeclass_instances.
+Notation heap := (@heap R).
+Notation idseal := (fun (_ : option nat) (g : tensor R) => g).
+Local Open Scope R_scope.
+
+Ltac rlazy := lazy -[Rpow Rmult Rplus Rminus Rdiv Rinv Ropp tanh cosh exp IZR dec2R Rmax Rmin Rabs Rle_dec].
+Ltac rlazy_in Hyp := lazy -[Rpow Rmult Rplus Rminus Rdiv Rinv Ropp tanh cosh exp IZR dec2R Rmax Rmin Rabs Rle_dec] in Hyp.
+
+Tactic Notation "own_cases" integer(n) :=
+  let c := fresh "c" in let nd := fresh "nd" in let e := fresh "e" in let Hn := fresh "Hn" in let He := fresh "He" in
+  intros c nd e Hn He;
+  do n (destruct c as [|c]; [rlazy_in Hn; inversion Hn; subst nd; cbn [nedges In] in He;
+                             repeat (destruct He as [He|He]; [subst e; first [reflexivity | cbn [fst]; lia]|]); destruct He|]);
+  destruct c; rlazy_in Hn; discriminate Hn.
+
+Tactic Notation "noe_cases" integer(n) :=
+  let c := fresh "c" in let e := fresh "e" in let He := fresh "He" in let Hi := fresh "Hi" in
+  intros c e He Hi;
+  do n (destruct c as [|c];
+        [rlazy_in He;
+         repeat (destruct He as [He|He];
+                 [subst e; first [ solve [in_solve]
+                                 | exfalso; cbn [fst In] in Hi; repeat (destruct Hi as [Hi|Hi]; [discriminate Hi|]); exact Hi ]|]);
+         try (destruct He)|]);
+  destruct c; rlazy_in He; destruct He.
+
+(* FINDING: W, B, x tracked leaves 0, 1, 2; the layer's nodes 3..11, y = 11.  bp_topo's order visits b
+   between the layer's nodes 10 and 9 and x between 4 and 5: the nine nodes are not a contiguous block
+   and the decreasing order [rev (seq 3 9)] folded by [fc_backward] is not bp_topo's order. *)
+Definition fh1 : heap := fst (fc_forward eh 0 1 [Some 2%nat] None).
+
+Example fc_order_ex :
+  topoOrder fh1 11 = [11; 10; 1; 9; 8; 7; 6; 4; 2; 5; 3; 0]%nat /\
+  ~ exists pre post, topoOrder fh1 11 = pre ++ rev (seq 3 9) ++ post.
+Proof.
+  assert (E : topoOrder fh1 11 = [11; 10; 1; 9; 8; 7; 6; 4; 2; 5; 3; 0]%nat) by reflexivity.
+  split; [exact E|]. rewrite E. intros (pre & post & X). cbn [seq rev app] in X.
+  destruct pre as [|a pre]; cbn [app] in X; [discriminate X|].
+  inversion X as [[Ha Hrest]]. clear X.
+  assert (Hin : In 11%nat [10; 1; 9; 8; 7; 6; 4; 2; 5; 3; 0]%nat) by (rewrite Hrest; apply in_or_app; right; left; reflexivity).
+  cbn [In] in Hin. repeat (destruct Hin as [Hin|Hin]; [discriminate Hin|]). exact Hin.
+Qed.
+
+(* NON-VACUITY: x = x0.Scale(2) is an interior node (3), the layer's nodes are 4..12 (y = 12), the root
+   is r = y.Scale(3) (13).  Order: [13; 12; 11; 1; 10; 9; 8; 7; 5; 3; 2; 6; 4; 0]. *)
+Definition fh0 : heap := fst (h_scale eh 2 2 (Some 3%nat)).
+Definition fh2 : heap := fst (fc_forward fh0 0 1 [Some 3%nat] (Some 4%nat)).
+Definition fH : heap := fst (h_scale fh2 12 3 (Some 5%nat)).
+Definition fX : tensor R := mkT [2%nat; 2%nat] (Vec [Vec [Sc (2 * 1); Sc (2 * 5)]; Vec [Sc (2 * 2); Sc (2 * 7)]]).
+Definition m22 (a b c d : R) : tensor R := mkT [2%nat; 2%nat] (Vec [Vec [Sc a; Sc b]; Vec [Sc c; Sc d]]).
+Lemma wf_m22 a b c d : wf (m22 a b c d).
+Proof. split; cbn; repeat constructor. Qed.
+
+Lemma fh2_eq : fc_forward fh0 0 1 [Some 3%nat] (Some 4%nat) = (fh2, Ok 12%nat).
+Proof. reflexivity. Qed.
+Lemma fH_pref : prefS fh2 fH.
+Proof. split; [rlazy; lia|]. intros i Hi. do 13 (destruct i as [|i]; [repeat split|]). rlazy_in Hi. lia. Qed.
+Lemma fH_own : rules_own fH.
+Proof. own_cases 14. Qed.
+Lemma fH_wf : wf_heap fH.
+Proof. own_cases 14. Qed.
+Lemma fH_noe : no_outside_edge fH 12 [4; 5; 6; 7; 8; 9; 10; 11]%nat.
+Proof. noe_cases 14. Qed.
+
+Example fc_in_graph_ex :
+  topoOrder fH 13 = [13; 12; 11; 1; 10; 9; 8; 7; 5; 3; 2; 6; 4; 0]%nat /\
+  exists H' log gy gw gb gx,
+    bp_topo RedSum idseal fH 13 = (H', log, Ok tt) /\ gradOf H' 12 = Some gy /\
+    gradOf H' 0 = Some gw /\ gradOf H' 1 = Some gb /\ gradOf H' 3 = Some gx /\
+    (forall bi o, (bi < 2)%nat -> (o < 2)%nat -> elt gy [bi; o] = 3) /\
+    elt gw [0%nat] = 90 /\ elt gw [1%nat] = 90 /\ elt gb [0%nat] = 6 /\ elt gb [1%nat] = 6 /\
+    elt gx [0%nat; 0%nat] = 15 /\ elt gx [1%nat; 1%nat] = 15.
+Proof.
+  split; [reflexivity|].
+  destruct (bp_topo RedSum idseal fH 13) as [[H' lg] r] eqn:E.
+  assert (Er : r = Ok tt) by (change r with (snd (H', lg, r)); rewrite <- E; vm_compute; reflexivity). subst r.
+  assert (Eg : exists a b c d, gradOf H' 12 = Some (m22 (3 * Rpow a (dec2R 0 0)) (3 * Rpow b (dec2R 0 0))
+                                                       (3 * Rpow c (dec2R 0 0)) (3 * Rpow d (dec2R 0 0)))).
+  { change H' with (fst (fst (H', lg, Ok tt))). rewrite <- E. rlazy. do 4 eexists. reflexivity. }
+  destruct Eg as (ga & gb0 & gc & gd & Eg).
+  set (gy := m22 (3 * Rpow ga (dec2R 0 0)) (3 * Rpow gb0 (dec2R 0 0)) (3 * Rpow gc (dec2R 0 0)) (3 * Rpow gd (dec2R 0 0))) in *.
+  destruct (fc_backward_in_graph 0 draw RedSum fh0 fh2 fH H' 0 1 3 (Some 4%nat) eW eB fX 2 2 2 12 13 lg gy)
+    as (_ & (gw & Hgw & _ & _ & Fw) & (gb & Hgb & _ & _ & Fb) & Hx);
+    [reflexivity|reflexivity|reflexivity|apply wf_eW|apply wf_eB|apply wf_m22|reflexivity|reflexivity|reflexivity
+    |reflexivity|reflexivity|reflexivity|reflexivity|reflexivity|lia|exact fh2_eq|apply fH_pref|apply fH_own|apply fH_wf
+    |apply fH_noe|rlazy; auto 20| |exact I|exact I|exact I|exact E|exact Eg|apply wf_m22|reflexivity| | | |].
+  - intros c Hc. cbn [In length eh fh0] in Hc. repeat (destruct Hc as [Hc|Hc]; [subst c; reflexivity|]). destruct Hc.
+  - intros g Hg. exfalso. rlazy_in Hg. exact Hg.
+  - intros g Hg. exfalso. rlazy_in Hg. exact Hg.
+  - intros g Hg. exfalso. rlazy_in Hg. exact Hg.
+  - destruct (Hx eq_refl) as (gx & Hgx & _ & _ & Fx).
+    assert (Y : forall bi o, (bi < 2)%nat -> (o < 2)%nat -> elt gy [bi; o] = 3).
+    { intros bi o Hb Ho. destruct bi as [|[|bi]]; [| |lia]; (destruct o as [|[|o]]; [| |lia]);
+        unfold gy; cbn; rewrite dec2R_0, Rpow_0; ring. }
+    exists H', lg, gy, gw, gb, gx. split; [reflexivity|]. split; [exact Eg|]. split; [exact Hgw|]. split; [exact Hgb|].
+    split; [exact Hgx|]. split; [exact Y|].
+    match type of Fw with context [contributions RedSum H' fH ?o 0%nat] =>
+      assert (Cw : contributions RedSum H' fH o 0%nat = []) by (rlazy; reflexivity) end.
+    match type of Fb with context [contributions RedSum H' fH ?o 1%nat] =>
+      assert (Cb : contributions RedSum H' fH o 1%nat = []) by (rlazy; reflexivity) end.
+    match type of Fx with context [contributions RedSum H' fH ?o 3%nat] =>
+      assert (Cx : contributions RedSum H' fH o 3%nat = []) by (rlazy; reflexivity) end.
+    assert (G0 : gradOf fH 0 = None) by reflexivity. assert (G1 : gradOf fH 1 = None) by reflexivity.
+    assert (G3 : gradOf fH 3 = None) by reflexivity.
+    repeat split.
+    + rewrite (Fw 0%nat) by lia. rewrite Cw, G0. unfold SumN, ReduceRP.Rsum. cbn [map seq fold_right].
+      rewrite !Y by lia. cbn. unfold rdc. ring.
+    + rewrite (Fw 1%nat) by lia. rewrite Cw, G0. unfold SumN, ReduceRP.Rsum. cbn [map seq fold_right].
+      rewrite !Y by lia. cbn. unfold rdc. ring.
+    + rewrite (Fb 0%nat) by lia. rewrite Cb, G1. unfold SumN, ReduceRP.Rsum. cbn [map seq fold_right].
+      rewrite !Y by lia. cbn. unfold rdc. ring.
+    + rewrite (Fb 1%nat) by lia. rewrite Cb, G1. unfold SumN, ReduceRP.Rsum. cbn [map seq fold_right].
+      rewrite !Y by lia. cbn. unfold rdc. ring.
+    + rewrite (Fx 0%nat 0%nat) by lia. rewrite Cx, G3. unfold SumN, ReduceRP.Rsum. cbn [map seq fold_right].
+      rewrite !Y by lia. cbn. ring.
+    + rewrite (Fx 1%nat 1%nat) by lia. rewrite Cx, G3. unfold SumN, ReduceRP.Rsum. cbn [map seq fold_right].
+      rewrite !Y by lia. cbn. ring.
+Qed.
+
+End Ex.
+End GradChainFcExamples.
+
+Print Assumptions single_grad_eq.
+Print Assumptions contributions_single.
+Print Assumptions fc_heap_obs.
+Print Assumptions target_grad.
+Print Assumptions fc_backward_in_graph.
+Print Assumptions GradChainFcExamples.fc_order_ex.
+Print Assumptions GradChainFcExamples.fc_in_graph_ex.
